@@ -11,7 +11,8 @@ real network observes.
   (`running_mean` has `c` entries), `DWT` (×4), `IWT` (÷r², floor as in `int(in_channel / r**2)`), `PixelShuffle`
   (÷r², must divide), `save` (remember the running channel count: skip connections, residuals, dense connections),
   `load d`, `drop d`, `cat ds` (`torch.cat([running, saved…], dim=1)`), `add d` (element-wise combination with a saved
-  tensor: equal channel counts), `emit` (a hooked block returns).
+  tensor: equal channel counts), `arg c` (a further tensor argument of `forward` with `c` channels: the recurrent state),
+  `emit` (a hooked block returns).
 * the channel programs of the denoisers, parametrised by *all* widths (`cin`, `cout`, number of filters / hidden
   channels) and depths, mirroring the spatial programs of `Model/Shapes.lean` hook for hook;
 * `fullRun` — the spatial program and the channel program side by side: final full shape and the full shape at
@@ -33,6 +34,7 @@ inductive COp where
   | drop (d : Nat)
   | cat (ds : List Nat)
   | add (d : Nat)
+  | arg (c : Nat)
   | emit
 deriving Repr, DecidableEq
 
@@ -77,6 +79,7 @@ def cstep (op : COp) (st : CState) : Except Err CState :=
     match st.regs[d]? with
     | some c => if c = st.cur then .ok st else .error .runtime
     | none => .error .runtime
+  | .arg c => .ok { st with cur := c }
   | .emit => .ok { st with trace := st.trace ++ [st.cur] }
 
 def runC : List COp → CState → Except Err CState
@@ -199,17 +202,23 @@ def dropsC : Nat → List COp
   | 0 => []
   | k + 1 => .drop k :: dropsC k
 
+/-- `[self.recon_block(d) for d in dub_outs]` and `torch.cat(…, dim=1)`: every remembered DUB output is loaded, passed
+through the shared `recon_block` and remembered; the last one stays the running tensor -/
+def didnReconC (c nc : Nat) : Nat → List COp
+  | 0 => []
+  | 1 => reconConvsC c nc ++ [.add 0, .drop 0, .emit, .cat []]
+  | k + 2 => reconsC c nc (k + 2) (k + 1) ++ [.load (k + 1)] ++ reconConvsC c nc ++ [.add (k + 1), .drop (k + 1), .emit] ++
+      [.cat (downTo (k + 1))] ++ dropsC (k + 1)
+
+/-- `recon_agg`, `conv`, `up2` (sub-pixel), `conv_out` -/
+def didnTailC (cout c nd : Nat) : List COp :=
+  [.conv (c * nd) c, .emit, .conv c c, .emit, .conv c (c * 4), .shuffle 2, .emit, .conv c cout, .emit]
+
 /-- `DIDN(cin, cout, hidden_channels = c, num_dubs = nd, num_convs_recon = nc, skip_connection = skip)`
 (`skip` = the *effective* flag `in_channels == out_channels and skip_connection`) -/
 def didnC (cin cout c nd nc : Nat) (skip : Bool) : List COp :=
   (if skip then [.save] else []) ++
-  [.conv cin c, .emit, .conv c c, .save, .emit] ++ dubsC c nd ++
-  (match nd with
-   | 0 => []
-   | 1 => reconConvsC c nc ++ [.add 0, .drop 0, .emit, .cat []]
-   | k + 2 => reconsC c nc (k + 2) (k + 1) ++ [.load (k + 1)] ++ reconConvsC c nc ++ [.add (k + 1), .drop (k + 1), .emit] ++
-       [.cat (downTo (k + 1))] ++ dropsC (k + 1)) ++
-  [.conv (c * nd) c, .emit, .conv c c, .emit, .conv c (c * 4), .shuffle 2, .emit, .conv c cout, .emit] ++
+  [.conv cin c, .emit, .conv c c, .save, .emit] ++ dubsC c nd ++ didnReconC c nc nd ++ didnTailC cout c nd ++
   (if skip then [.add 0, .drop 0] else [])
 
 /-- ResNet blocks: `x + scale·conv2(relu(conv1(x)))`, optional batch norm; all but the last block's result is the next
@@ -232,5 +241,33 @@ def convNetC (cin cout h : Nat) (bn : Bool) : Nat → List COp
     let o := if n = 0 then cout else h
     [.conv cin o, .emit] ++ (if bn then [.bnorm o, .emit] else []) ++ (if n = 0 then [] else [.emit]) ++
       convNetC h cout h bn n
+
+/-- the channel counts a forward hook sees at the `conv_blocks` of a `Conv2dGRU(cin, h, cout, num_layers = layers)`:
+`layers` hidden blocks and the output block -/
+def gruChanTrace (h cout layers : Nat) : List Nat := List.replicate layers h ++ [cout]
+
+/-- skeleton of the Conv2dGRU channel program (the conv blocks only; used when the `forward` cannot be read) -/
+def gruChanFallback (cin h cout : Nat) : Nat → List COp
+  | 0 => [.conv cin cout, .emit]
+  | l + 1 => [.conv cin h, .emit] ++ gruChanFallback h h cout l
+
+/-! ## the permute pairs around the denoiser calls of the unrolled networks -/
+
+/-- `x.permute(*p)` followed by `.permute(*q)` is the identity on every shape of that rank: `p[q[i]] = i` -/
+def permInverse (p q : List Nat) : Bool :=
+  p.length == q.length && q.all (· < p.length) && (List.range q.length).all fun i => p.getD (q.getD i 0) 0 == i
+
+/-- the permutation that moves the last axis (complex / channel) behind the first `lead` axes, keeping the others in
+order: `(0, 3, 1, 2)`, `(0, 4, 1, 2, 3)` for `lead = 1`; `(0, 1, 4, 2, 3)`, `(0, 1, 5, 2, 3, 4)` for `lead = 2` -/
+def toChannelsFirst (lead rank : Nat) : List Nat :=
+  List.range lead ++ [rank - 1] ++ (List.range (rank - 1 - lead)).map (· + lead)
+
+/-- one row of the table read from the `forward`s: (family, domain, permute applied to the denoiser's argument, permute
+applied to its result; `[]` = the result stays channels-first).  Well-formed: the argument is brought to channels-first
+(behind the batch axis for image-domain calls, behind batch and coil for per-coil calls) and the result is brought back by
+the inverse permutation — except in `RIM`, whose documented output is channels-first. -/
+def permRowOk (row : String × Nat × List Nat × List Nat) : Bool :=
+  let (fam, dom, p, q) := row
+  p == toChannelsFirst (if dom = 0 then 1 else 2) p.length && (if q.isEmpty then fam == "RIM" else permInverse p q)
 
 end DirectVerif.Shapes
